@@ -3,6 +3,7 @@ module hv
 go 1.13
 
 require (
+	github.com/andot/complexconv v1.0.0
 	github.com/fasthttp/websocket v1.5.0
 	github.com/google/uuid v1.3.0
 	github.com/hprose/hprose-golang/v3 v3.0.0
